@@ -1,7 +1,7 @@
 (* C15 — Untrusted peers cannot crash or bloat the node (decision/arithmetic part of the message handler, the frame
    reader and the packet decoder; goroutine blocking and memory growth are runtime facts explored by the harness).
    Only statements; each is closed by a lemma proved in theories/HandlerProofs.v. *)
-From ZV Require Import Prelude GoSem Paging Handler Frame HandlerProofs Session SessionProofs BaseMsg BaseMsgProofs EncHs EncHsProofs.
+From ZV Require Import Prelude GoSem Paging Handler Frame HandlerProofs Session SessionProofs BaseMsg BaseMsgProofs EncHs EncHsProofs Discv DiscvProofs.
 From ZV.gen Require Import Consts.
 Open Scope Z_scope.
 
@@ -209,6 +209,73 @@ Proof. exact hashes_unbounded_refuted. Qed.
 Theorem C15_blocks_bytes_unbounded_refuted :
   exists H items l tot, Forall (wf_item H) items /\ handle_gen true true false H 0 (RGetBlocks items) = OBlocks l tot /\ ProtocolMaxMsgSize < tot.
 Proof. exact blocks_bytes_unbounded_refuted. Qed.
+
+(* ---- the live discovery endpoint (Discv.v): what the node does with a datagram that decoded ---- *)
+
+(* nodeFromRPC: no address of any length and content, no port, reaches an index or a slice out of range *)
+Theorem C15_neighbor_entry_no_panic : forall ip udp, node_from_rpc ip udp <> Panic /\ node_ip ip <> Panic.
+Proof. exact node_from_rpc_no_panic. Qed.
+
+(* a packet that does not decode, is expired, is a reply, comes with another version, or is a findnode of a node
+   without a bond makes the handler write NOTHING to the socket *)
+Theorem C15_discovery_refused_packet_sends_nothing : forall kind decodes ts now version known closest,
+  decodes = false \/ expired ts now = true \/ kind = dvPong \/ kind = dvNeighbors \/ (kind = dvFindnode /\ known = false)
+  \/ (kind = dvPing /\ version <> dvVersion) \/ (kind < 1 \/ 4 < kind) ->
+  disc_handle kind decodes ts now version known closest = (0, 0, 0).
+Proof. exact disc_handle_refused. Qed.
+
+(* what one datagram makes the handler send: at most one pong, or one answer set of at most ceil(bucketSize/maxNeighbors)
+   datagrams with at most bucketSize entries altogether *)
+Theorem C15_discovery_answer_bounded : forall kind decodes ts now version known closest,
+  0 <= closest <= dvBucketSize ->
+  let '(pongs, dgrams, nodes) := disc_handle kind decodes ts now version known closest in
+  0 <= pongs <= 1 /\ 0 <= dgrams /\ dgrams * dvMaxNeighbors < dvBucketSize + dvMaxNeighbors /\ 0 <= nodes <= dvBucketSize
+  /\ (nodes = 0 \/ nodes = closest) /\ (pongs = 0 \/ dgrams = 0).
+Proof. exact disc_handle_bounded. Qed.
+
+(* the chunking loop of the answer, for every number of entries and every datagram capacity *)
+Theorem C15_findnode_answer_chunks : forall c m, 0 <= c -> 1 <= m ->
+  let l := findnode_answer c m in
+  zsum l = c /\ Forall (fun x => 1 <= x <= m) l /\ Z.of_nat (length l) * m < c + m.
+Proof. exact findnode_answer_spec. Qed.
+
+(* every uint64 expiration: accepted iff strictly in the future AND below the wrap of the internal seconds; the past,
+   the values from 2^63 - unixToInternal on and everything from 2^63 on are refused *)
+Theorem C15_discovery_expiration : forall ts now, 0 <= ts < two64 -> 0 <= now < 2 ^ 62 ->
+  (expired ts now = false <-> (now < ts /\ ts < two63 - unixToInternal)).
+Proof. exact expired_spec. Qed.
+
+(* the reply callback of findnode looks at fewer than bucketSize entries plus one datagram, however many datagrams arrive *)
+Theorem C15_findnode_reply_bounded : forall replies M nrecv, 0 <= M -> Forall (fun n => 0 <= n <= M) replies ->
+  nrecv + looked_at nrecv replies <= Z.max nrecv (dvBucketSize - 1 + M) /\ 0 <= looked_at nrecv replies.
+Proof. exact looked_at_bounded. Qed.
+
+(* the pending-reply queue: an unsolicited reply changes nothing; no reply makes the queue longer, touches the waiters
+   for other senders or packet types, or moves a deadline *)
+Theorem C15_unsolicited_reply_changes_nothing : forall q from ptype n,
+  forallb (fun p => negb (matches from ptype p)) q = true -> got_reply q from ptype n = (q, false).
+Proof. exact got_reply_unsolicited. Qed.
+Theorem C15_reply_never_grows_pending : forall q from ptype n,
+  (length (fst (got_reply q from ptype n)) <= length q)%nat /\
+  filter (fun p => negb (matches from ptype p)) (fst (got_reply q from ptype n)) = filter (fun p => negb (matches from ptype p)) q.
+Proof. intros. split; [apply got_reply_shrinks|apply got_reply_others]. Qed.
+Theorem C15_reply_never_moves_a_deadline : forall q from ptype n p',
+  In p' (fst (got_reply q from ptype n)) ->
+  exists p, In p q /\ p_from p' = p_from p /\ p_type p' = p_type p /\ p_deadline p' = p_deadline p.
+Proof. exact got_reply_deadlines. Qed.
+
+Example C15_discovery_example :
+  node_from_rpc [] 30303 = Ok true /\                                   (* an address of length zero is taken *)
+  node_from_rpc [224;0;0;1] 30303 = Ok false /\ node_from_rpc [0;0;0;0] 30303 = Ok false /\
+  node_from_rpc [127;0;0;1] 0 = Ok false /\ node_from_rpc (repeat 255 17) 1 = Ok true /\
+  node_from_rpc (v4InV6Prefix ++ [0;0;0;0]) 1 = Ok false /\
+  first_byte_test [] = Panic /\                                         (* what an unguarded ip[0] does with it *)
+  findnode_answer 16 12 = [12; 4] /\ findnode_answer 12 12 = [12] /\ findnode_answer 0 12 = [] /\
+  disc_handle dvFindnode true 2000000000 1800000000 0 true 16 = (0, 2, 16) /\
+  disc_handle dvFindnode true 2000000000 1800000000 0 false 16 = (0, 0, 0) /\
+  disc_handle dvPing true 9223372036854775807 1800000000 4 true 16 = (0, 0, 0) /\   (* 2^63-1: the internal seconds wrap *)
+  findnode_collect [8; 8; 8] = [true; true; false] /\ findnode_collect [1; 17; 1] = [true; true; false].
+Proof. vm_compute. repeat split; reflexivity. Qed.
 
 (* non-vacuity *)
 Example C15_handle_example :
